@@ -492,7 +492,7 @@ def correspond(ctx):
                  "oracle cases: analytic energies/vector fields at random geometries under random recipes; a case is "
                  "non-trivial if the recipe is not the identity (rotation != I or shift != 0 or atommap not sorted or mirror); "
                  "distinct = distinct inputs")
-    n_model = 16000 if ctx.thorough else 1800
+    n_model = 16000 if ctx.thorough else 1260
     n_oracle = 30000 if ctx.thorough else 1000
     cases, terms = [], []
     for k in range(n_model):
